@@ -34,11 +34,14 @@ fn main() {
         .expect("open replay file")
         .read_to_string(&mut txt)
         .unwrap();
+    std::panic::set_hook(Box::new(|_| {}));
     if let Some(first) = txt.lines().find(|l| !l.trim().is_empty() && !l.starts_with('#')) {
         if let Some(what) = first.trim().strip_prefix("exec ") {
             let m = vharness::mexec::kv(&txt);
             let out = match what.trim() {
                 "cuckoo" => vharness::mexec::exec_cuckoo(&m),
+                "lossy" => vharness::mexec::exec_lossy(&m),
+                "heap" => vharness::mexec::exec_heap(&m),
                 _ => "{\"error\":\"unknown exec\"}".to_string(),
             };
             println!("{}", out);
